@@ -12,7 +12,7 @@ META = {
     "level_text": "Exploration: Hypothesis-seeded generator of functions made of nested (depth <= 3) try/except (typed, tuple, bare, named handlers)/else/finally, try/except* with exception groups, with-statements over context managers that suppress / raise in __enter__ / raise in __exit__, and for-loops; guarded actions raise user exceptions (plain, from X, from None, from a handler name, re-raise by name, bare raise also outside handlers, via a call, interpreter-raised ZeroDivisionError, exception groups), return, break or continue. Every block logs its id and sys.exc_info(); each function is run for every combination of its <= 6 guard bits, outside and inside an active outer handler; the propagated exception is rendered recursively with __cause__/__context__/__suppress_context__ and group members, and sys.exc_info() after the call is recorded. All of it is compared with CPython executing the identical source. Sampling of programs, exhaustive in the guard bits; no proof.",
     "level_note": "Trusts CPython 3.12 as reference; messages of interpreter-raised exceptions are not compared (only user exceptions carry compared args); tracebacks are C44's subject; compiled code runs in isolated runner subprocesses.",
 }
-K = 22
+K = 10
 
 
 def case_of(it, exprs):
@@ -65,9 +65,83 @@ def _star_flags(paths):
     return star, star_in_with
 
 
-def bucket_of(cls, r, g, paths):
+def _caught_bare_reraise(src):
+    """static: a bare `raise` sits in the BODY of a try statement that is itself nested inside an except handler
+    or a finally block (the re-raised exception can be caught again while the outer handler/finally is active), or
+    directly in a finally block (which may have been entered without a propagating exception)"""
+    import ast
+    try:
+        t = ast.parse(src)
+    except (SyntaxError, TypeError):
+        return False
+
+    def has_bare_raise(nodes):
+        for n in nodes:
+            if isinstance(n, ast.Raise) and n.exc is None:
+                return True
+            if isinstance(n, (ast.FunctionDef, ast.Lambda, ast.ClassDef)):
+                continue
+            for f, v in ast.iter_fields(n):
+                if f == "handlers":
+                    continue
+                if isinstance(v, list) and v and isinstance(v[0], ast.stmt) and has_bare_raise(v):
+                    return True
+        return False
+
+    def tries_in(nodes):
+        for n in nodes:
+            for m in ast.walk(n):
+                if isinstance(m, (ast.Try, getattr(ast, "TryStar", ast.Try))):
+                    yield m
+
+    for n in ast.walk(t):
+        regions = []
+        if isinstance(n, ast.ExceptHandler):
+            regions.append(n.body)
+        fb = getattr(n, "finalbody", None)
+        if fb:
+            regions.append(fb)
+            if has_bare_raise(fb):
+                return True      # a bare raise directly in a finally block (entered by return/fall-through: no saved exception)
+        for reg in regions:
+            for tr in tries_in(reg):
+                if has_bare_raise(tr.body):
+                    return True
+    return False
+
+
+def _return_in_finally_in_handler(src):
+    """static: inside an except handler, a try statement with `return` both in its finally block and in its
+    try/except/else parts"""
+    import ast
+    try:
+        t = ast.parse(src)
+    except (SyntaxError, TypeError):
+        return False
+
+    def has_return(nodes):
+        for n in nodes:
+            for m in ast.walk(n):
+                if isinstance(m, ast.Return):
+                    return True
+        return False
+    for h in ast.walk(t):
+        if isinstance(h, ast.ExceptHandler):
+            for n in h.body:
+                for m in ast.walk(n):
+                    if isinstance(m, ast.Try) and m.finalbody and has_return(m.finalbody) \
+                            and (has_return(m.body) or has_return(m.handlers) or has_return(m.orelse)):
+                        return True
+    return False
+
+
+def bucket_of(cls, r, g, paths, src=None):
     b = _bucket_of(cls, r, g, paths)
+    if b.startswith("crash") and src and not _caught_bare_reraise(src) and _return_in_finally_in_handler(src):
+        b += "|rfr"
     star, star_in_with = _star_flags(paths)
+    if src and _caught_bare_reraise(src):
+        b += "|brc"
     if star:
         b += "|star-in-with" if (star_in_with and b.startswith("crash")) else "|star"
     return b
@@ -147,7 +221,7 @@ def _shard(arg):
                 part.count("timeouts")
             cls = diffmod.compare(r, g, "full")
             if cls is not None:
-                b = bucket_of(cls, r, g, meta["paths"])
+                b = bucket_of(cls, r, g, meta["paths"], it["src"])
                 part.violation(b, dict(case_of(it, [c["expr"]]), refkind=_refkind(r)),
                                "%s: %s: CPython %s vs compiled %s" % (c["expr"], cls, diffmod.json_short(r, 700), diffmod.json_short(g, 700)))
 
@@ -177,12 +251,12 @@ def _reduce_one(job):
             return False
         for r, g in zip(res.ref[0], res.got[0]):
             cls = diffmod.compare(r, g, "full")
-            if cls is not None and bucket_of(cls, r, g, case.get("paths", {})).split("|")[0] == bucket.split("|")[0] \
+            if cls is not None and bucket_of(cls, r, g, case.get("paths", {}), text).split("|")[0] == bucket.split("|")[0] \
                     and _refkind(r) == want:
                 return True
         return False
     want = case.get("refkind")
-    return bucket, e2util.reduce_ast(case["src"], pred, budget=25)
+    return bucket, e2util.reduce_ast(case["src"], pred, budget=12)
 
 
 def run(ctx):
@@ -191,7 +265,7 @@ def run(ctx):
     findings = harness.load_findings()
     firsts = {}
     for bucket, case, what in ctx.violations:
-        if "|" in bucket and bucket not in firsts and len(firsts) < 8 \
+        if "|" in bucket and bucket not in firsts and len(firsts) < 3 \
                 and harness.match_finding(PID, bucket, case, findings) is None:
             firsts[bucket] = case
     jobs = [(b, c, ctx.work) for b, c in firsts.items()]
@@ -203,9 +277,9 @@ def run(ctx):
             case = dict(case, src=smalls[bucket])
         out.append((bucket, case, what))
     ctx.violations = out
-    ctx.rule = ("Hypothesis-seeded generator of functions with nested (depth <= 3, <= ~22 blocks) try/except/else/finally, try/except*, with, "
+    ctx.rule = ("Hypothesis-seeded generator of functions with nested (depth <= 3, <= ~16 blocks) try/except/else/finally, try/except*, with, "
                 "for; <= 6 guard bits select raise (8 forms)/return/break/continue points; every function runs for all 2^b bit values via wrapper W "
-                "(no active exception) and for all (b <= 4) or 16 sampled values via WH (inside an active `except KeyError`); 22 functions per module; "
+                "(no active exception) and for all (b <= 4) or 16 sampled values via WH (inside an active `except KeyError`); 10 functions per module; "
                 "oracle = same source under CPython: block LOG with sys.exc_info() (type + user args), result, rendered exception chain "
                 "(__cause__/__context__/__suppress_context__, group members), exc_info after the call. "
                 "non-trivial = program nests >= 2 constructs and an exception was raised on that input; distinct by (source, call)")
@@ -220,6 +294,6 @@ def replay(ctx, case):
     for e, r, g in zip(case["exprs"], res.ref[0], res.got[0]):
         c = diffmod.compare(r, g, "full")
         if c is not None:
-            return True, "%s: %s: CPython %s vs compiled %s" % (e, bucket_of(c, r, g, case.get("paths", {})),
+            return True, "%s: %s: CPython %s vs compiled %s" % (e, bucket_of(c, r, g, case.get("paths", {}), case["src"]),
                                                                diffmod.json_short(r, 600), diffmod.json_short(g, 600))
     return False, "outcomes agree"
